@@ -1,7 +1,7 @@
 """C11: class rules - the first matching rule in name order decides."""
 import fnmatch
 from iauth_common import *
-PROFILE = dict(p_rules=1.0, p_class=1.0, p_xq=1.0, p_good_reply=0.85, maxlen=35)
+PROFILE = dict(p_rules=1.0, p_class=1.0, p_xq=1.0, p_good_reply=0.85, maxlen=35, p_xok=0.45, timeouts=[0, 3600, 3600], w_pass=5, nsv=[1, 2, 2, 3])
 
 def classes(lines, n):
     out = []
@@ -24,4 +24,26 @@ def run(chk):
         v = tuple(x for s in d.steps for x in s[0] if x[:2] in ("D ", "R ") and len(x.split(" ")) > 4)
         return v if v else None
     analyse(chk, drv, impl, scns, ms, ds, project=classes, judge=judge, what="class rules: ", nontrivial=nontriv)
+    # the xreply_ok criterion in every state a service can be in for a client at acceptance time: never asked, asked and unanswered,
+    # answered OK, answered OK and asked again (second password) with that query unanswered, unlinked, AGAIN; acceptance by hurry-up
+    # or by the request timeout
+    fam = []
+    rules2 = [dict(name='10-members', xreply_ok='svc.x', **{'class': 'members'}), dict(name='20-guests', **{'class': 'guests'})]
+    for typ in ('login', 'login-ipr', 'combined', 'dronecheck'):
+        for state in ('never', 'pending', 'ok', 'ok-then-requery', 'unlinked', 'again', 'ok-acct'):
+            for how in ('H', 'timeout'):
+                ls = ["9 C 10.1.2.5 4002 10.0.0.1 6667"]
+                if state != 'never': ls += ["9 P :+x acct pw", "9 N host.example.org", "9 u ident", "9 n Nick", "9 U user :Real"] if typ != 'login' else ["9 P :+x acct pw"]
+                if state == 'ok': ls += ["-1 X svc.x 9_1 :OK"]
+                if state == 'ok-acct': ls += ["-1 X svc.x 9_1 :OK acct:5"]
+                if state == 'ok-then-requery': ls += ["-1 X svc.x 9_1 :OK", "9 P :+x acct pw2"]
+                if state == 'unlinked': ls += ["-1 x svc.x 9_1 :gone"]
+                if state == 'again': ls += ["-1 X svc.x 9_1 :AGAIN retry"]
+                ls += ["9 H"]
+                if how == 'timeout': ls += ["9 ! timeout"]
+                ls += ["9 D"]
+                fam.append(Scn(True, True, [('svc.x', typ)], rules2, 3600 if how == 'timeout' else 0, L(*ls), "xreply_ok state %s, %s service, accepted by %s" % (state, typ, how)))
+                chk.hist("xreply_ok state family")
+    mf = run_model(drv, fam); df = run_daemons(impl, fam)
+    analyse(chk, drv, impl, fam, mf, df, project=classes, judge=judge, what="class rules (xreply_ok states): ", nontrivial=nontriv)
     chk.cov["rule"] = "rule tables of 1-6 rules (names in mixed case, class or none, account / address / username / hostname / xreply_ok criteria subsets, globs with * and ?, CIDR and wildcard masks, trust_username) x client attribute combinations; projection = class field of D/R lines and U lines; distinct non-trivial = distinct traces in which some client received a class"
